@@ -188,7 +188,7 @@ func cmdCheck(args []string) {
 		engineFailure(*prop, *tier, seed, "ENGINE-CONTRACTS: "+err.Error(), t0)
 	}
 	eng.thorough = *tier == "thorough"
-	timeout := 20
+	timeout := 40
 	if *tier == "thorough" {
 		timeout = 300
 	}
